@@ -60,7 +60,7 @@ def build(repo, tier):
         notes=['spec decisions: ' + ' | '.join(sm.SPEC_DECISIONS)])
     spec.step_replay = True
     spec.lemma_replayers['C05/rs/step/'] = step_replayer
-    spec.extra_checks.append(lambda tier, seed: [differential_standin(repo.root, tier, seed)])
+    spec.extra_checks.append(lambda tier, seed: [differential_standin(repo.root, tier, seed), three_phase_standin(repo.root, tier, seed)])
     return spec
 
 
@@ -99,6 +99,74 @@ def step_replayer(name, model, root):
     if not agree:
         rec['failed_clause'] = name.split('/')[-1]
     return (not agree), rec
+
+
+def _pat_prog(p):
+    """instruction bytes that build a (ground, metavar-free) pattern"""
+    c = p[0]
+    if c in ('EVar', 'SVar', 'Symbol'):
+        return [sm.OPC[c], p[1]]
+    if c in ('Implies', 'App'):
+        return _pat_prog(p[1]) + _pat_prog(p[2]) + [sm.OPC[c]]
+    if c in ('Exists', 'Mu'):
+        return _pat_prog(p[2]) + [sm.OPC[c], p[1]]
+    raise ValueError(p)
+
+
+def three_phase_standin(root, tier, seed):
+    """Bounded stand-in (NOT counted as proved): whole gamma/claim/proof triples through the real `verify`, compared with the
+    spec machine; claims are discharged in random order (only the reverse declaration order is accepted) and triples are
+    also truncated at random positions (truncated operands must be rejected)."""
+    from vc import norm
+    from contracts.sm_contracts import sm_accepts
+    rng = random.Random(seed + 7)
+    n = 40 if tier == 'quick' else 600
+    pool = [('EVar', 0), ('Symbol', 1), ('Implies', ('EVar', 0), ('Symbol', 1)), ('Exists', 0, ('EVar', 0)), ('App', ('Symbol', 1), ('SVar', 2)),
+            ('Mu', 1, ('SVar', 1))]
+    rr = RustReal(root)
+    viol, done, samples = [], 0, []
+    try:
+        cmds, exps, progs = [], [], []
+        for i in range(n):
+            k = rng.randint(1, 3)
+            axs = rng.sample(pool, k)
+            g = []
+            for a in axs:
+                g += _pat_prog(a) + [sm.OPC['Publish']]
+            c = []
+            for a in axs:
+                c += _pat_prog(a) + [sm.OPC['Publish']]
+            order = list(range(k))
+            rng.shuffle(order)
+            p = []
+            for j in order:
+                p += [sm.OPC['Load'], j, sm.OPC['Publish']]
+            if rng.random() < 0.3:
+                p += [sm.OPC['MetaVar'], 0, 1, 2, 0, 0, 0, 1, 5][: rng.randint(2, 9)]
+            which = rng.random()
+            if which < 0.25 and p:
+                p = p[: rng.randint(0, len(p) - 1)]
+            elif which < 0.4 and c:
+                c = c[: rng.randint(0, len(c) - 1)]
+            progs.append((g, c, p))
+            hx = lambda b: ''.join('%02x' % x for x in b) or '-'
+            cmds.append(f'verify {hx(g)} {hx(c)} {hx(p)}')
+            exps.append(z3.is_true(norm.ceval(sm_accepts(idl(*g), idl(*c), idl(*p)))))
+        outs = rr.run(cmds)
+        for (g, c, p), cmd, exp, out in zip(progs, cmds, exps, outs):
+            done += 1
+            got = out[0] == 'OK'
+            if len(samples) < 3:
+                samples.append({'gamma': g, 'claims': c, 'proof': p, 'real_accepts': got, 'spec_accepts': exp})
+            if got != exp:
+                viol.append({'name': f'C05/bounded/verify[{cmd}]', 'status': 'refuted-bounded', 'backend': 'bounded differential run',
+                             'model': None, 'detail': '', 'confirmed': True,
+                             'replay': {'command': cmd, 'real': list(out), 'spec_machine_accepts': exp}})
+                break
+    finally:
+        rr.close()
+    return {'bounded': {'kind': 'gamma/claim/proof triples (permuted claim order, truncations): real verify vs spec machine',
+                        'programs': done, 'samples': samples}, 'violations': viol}
 
 
 def differential_standin(root, tier, seed):
